@@ -132,18 +132,21 @@ def positConvHandler (n es : Nat) (op : String) (args : List String) (rhs : List
   | "toi", [kind, as], [rs] =>
     let some a := parseHex as | throw "a"
     let some r := parseHex rs | throw "r"
-    let some t := toIntVia n es kind a | throw "NaR has no integer value"
-    let m := if kind == "u32" then ofSigned 32 t else ofSigned 64 t
-    -- spec: exact value truncated toward zero (the harness only emits the line when the value fits the type)
-    let ok := match positVal n es a with
-      | some x => r == ofSigned 64 (truncZ x)
-      | none => false
-    -- known finding D23: the detour through double / long double loses bits when the posit has more
-    -- fraction bits than the native float and the rounded value crosses an integer
-    let fb := fbitsOf n es
-    let cls := if (kind == "i32" || kind == "u32") && fb > 52 then "posit.to_int.via_double_fbits_gt_52"
-               else if (kind == "i64" || kind == "u64") && fb > 63 then "posit.to_int.via_long_double_fbits_gt_63" else ""
-    return { model := toHex m, specOk := ok, reason := "integer cast is not truncation toward zero", cls := cls, tag := "toi/" ++ kind }
+    let some (digits, sgn) := intDigits kind | throw "kind"
+    let some t := toIntKind n es kind a | throw "NaR has no integer value"
+    let m := ofSigned 64 t
+    -- spec: the exact value truncated toward zero WHENEVER THAT FITS the integer type. Outside the type's range the
+    -- property is silent (the repaired to_integer saturates, negative values wrap into unsigned types): only the
+    -- correspondence with the model is checked there. No class: D23 is repaired, a recurrence is a violation.
+    let (ok, fits) := match positVal n es a with
+      | some x =>
+        let z := truncZ x
+        let lo : Int := if sgn then -((2 ^ digits : Nat) : Int) else 0
+        let fits := decide (lo ≤ z) && decide (z < ((2 ^ digits : Nat) : Int))
+        (!fits || r == ofSigned 64 z, fits)
+      | none => (false, false)
+    return { model := toHex m, specOk := ok, reason := "integer cast is not truncation toward zero",
+             tag := "toi/" ++ kind ++ (if fits then "" else "/outside") }
   | _, _, _ => throw s!"unknown op {op}"
 
 /-- `posit n es limits => min max lowest epsilon minneg maxneg max_exponent min_exponent digits` -/
